@@ -6,8 +6,8 @@
    utils.TokenizeStringByUnicodeSeg, Condition.ValueAsDate + dates.DayToUTCRange, i18n.ParseLanguage,
    Resolver.ResolveGroup/ResolveFlow) on exactly the strings that occur in the world's queries and contacts.
    Two tables are redundant with the model and are cross-checked here: w_days carries the real utcDayEnd
-   (the model computes start + 24h) and w_nums the real decimal.NewFromString result (the model has
-   [parse_dec]). *)
+   (the model computes start + 24h) and w_nums the real Condition.ValueAsNumber result (the model has
+   [value_number] = [parse_dec] + the exponent bound). *)
 From Coq Require Import List NArith ZArith Bool.
 From Verif Require Import model.CqlEval.
 Import ListNotations.
@@ -112,7 +112,7 @@ Definition odec_eqb (a : option dec) (b : option (Z * Z)) : bool :=
 (* the two redundant tables agree with the model *)
 Definition world_ok (w : world) : bool :=
   forallb (fun x => let '(s, e) := snd x in (e =? s + day_ns)%Z) (w_days w)
-  && forallb (fun x => odec_eqb (parse_dec (fst x)) (snd x)) (w_nums w).
+  && forallb (fun x => odec_eqb (value_number (fst x)) (snd x)) (w_nums w).
 
 Definition check (k : ccase) : bool :=
   let e := env_of (k_world k) in
